@@ -50,15 +50,18 @@ type ArgSpec struct {
 }
 
 type GroupSpec struct {
-	Name         string       `json:"name"`
-	Long         string       `json:"long,omitempty"`
-	Namespace    string       `json:"namespace,omitempty"`
-	EnvNamespace string       `json:"env_namespace,omitempty"`
-	Hidden       bool         `json:"hidden,omitempty"`
-	Opts         []*OptSpec   `json:"opts,omitempty"`
-	Sub          []*GroupSpec `json:"sub,omitempty"`
-	Pos          []*ArgSpec   `json:"pos,omitempty"`
-	PosRequired  bool         `json:"pos_required,omitempty"`
+	Name         string `json:"name"`
+	Long         string `json:"long,omitempty"`
+	Namespace    string `json:"namespace,omitempty"`
+	EnvNamespace string `json:"env_namespace,omitempty"`
+	Hidden       bool   `json:"hidden,omitempty"`
+	// CreatedAs (top-level groups): the group is added under this name and gets its
+	// name proper right afterwards (Group.ShortDescription is a public field)
+	CreatedAs   string       `json:"created_as,omitempty"`
+	Opts        []*OptSpec   `json:"opts,omitempty"`
+	Sub         []*GroupSpec `json:"sub,omitempty"`
+	Pos         []*ArgSpec   `json:"pos,omitempty"`
+	PosRequired bool         `json:"pos_required,omitempty"`
 	// ViaPtr (nested groups): the field is a nil pointer to the group's struct,
 	// which the library allocates when it reads the declaration.
 	ViaPtr bool `json:"via_ptr,omitempty"`
@@ -794,10 +797,15 @@ func Build(spec *DeclSpec) (b *Built) {
 		rv := reflect.New(groupType(g))
 		b.bindGroup(g, rv.Elem(), walkCtx{b: b}, g.Name)
 		add := func() error {
-			fg, err := p.AddGroup(g.Name, g.Long, rv.Interface())
+			name := g.Name
+			if g.CreatedAs != "" {
+				name = g.CreatedAs
+			}
+			fg, err := p.AddGroup(name, g.Long, rv.Interface())
 			if err != nil {
 				return err
 			}
+			fg.ShortDescription = g.Name
 			applyGroupAttrs(fg, g)
 			return nil
 		}
